@@ -35,6 +35,8 @@ func main() {
 		&lib.Prop{ID: "C01", Part: "full-restart", Level: "fault_enumeration", NCases: n(25, 800), Run: c01FullRestart,
 			Assumptions: append([]string{"family F: every worker of the assembly is replaced by a fresh one (new process); survivors redeployed in place are family P (see known findings)", "the job notices dead members through heartbeat expiry (FrozenClock advanced by 6 s) and the re-registration of the replacements"}, clAssume...),
 			Rule: "1..3 crashes per run at seeded logical points: idle right after a published checkpoint / mid flow after a checkpoint with post-cut records applied / mid flow with no checkpoint in the epoch / during a checkpoint after the j-th of the 2W acknowledgements reached the job (the others held, then dropped with the dying nodes), every j; all workers killed and replaced, job redeploys from its latest completed checkpoint, reading resumes from the checkpointed cursors; oracles: at every deploy round the shadow of every key is reset to the cut of the checkpoint named in the Deploy requests (frozen at the operators' acknowledgements) and every handler invocation's supplied state must equal it (no record lost, none applied twice: seen/<id> and last/<split> entries), final state = every keyed event of the input exactly once, barrier-cut oracle on every stream, deploys only to live nodes / exactly W members / one checkpoint per round, and bounded progress: a checkpoint completes again after the recovery or a stuck-state witness is shown; non-trivial = always; distinct by (options, log)"},
+		&lib.Prop{ID: "C15", Part: "kf-partial-redeploy", Level: "fault_enumeration", NCases: n(1, 1), Run: kfPartialRedeploy,
+			Rule: "deterministic reproducer of the known finding at job level (family P): one of two workers dies with an idle pipeline, the survivor is redeployed in place with a replacement, GC runs, reading continues; the handler-side state oracle / final-state check show the loss"},
 		&lib.Prop{ID: "C15", Part: "assembly-fake", Level: "fault_enumeration", NCases: n(200, 20000), Run: c15Fake,
 			Assumptions: []string{"fast tier: the real jobs.Job (registry, liveness, assembly, snapshot store, FrozenClock) with fake operators and source runners that answer Deploy / StartCheckpoint and acknowledge on request", "'live' is what the job can know: registered and last heartbeat within the 5 s deadline on the job's clock at the moment of the call", "liveness is restated as bounded progress: after faults stop, 20 rounds of (6 s pass, heartbeats, checkpoint tick, acknowledgements) must publish a checkpoint; no progress is a violation, reported with the stuck-state witness when there is one"},
 			Rule: "scripts of 10..50 seeded steps over W (1..3) workers plus 0..2 standbys per kind: register / deregister / kill (stops answering and heartbeating) / 3 s pass with heartbeats / 6 s pass without / checkpoint tick / all or half of the members acknowledge / next deploy to a node fails; after every step the job settles and every Deploy call seen so far must have gone to a node that was registered and live at that moment, naming exactly W distinct operators; then faults stop, fresh nodes fill up to W live of each kind, and checkpointing must resume within the bound; non-trivial = >=1 Deploy call; distinct by script hash"},
